@@ -2,6 +2,7 @@ package apph
 
 import (
 	"encoding/base64"
+	"encoding/hex"
 	"encoding/json"
 	"fmt"
 	"math/big"
@@ -420,6 +421,11 @@ func RunLedger(opt LedgerOptions) (*Result, error) {
 							after = cur.Holdings[owner][curName]
 						}
 						if after.Cmp(before) < 0 {
+							// a contract pays out by its own code, whoever calls it: the authority of its
+							// holdings is the code, not a signature
+							if hasCode(prevDump, owner) || hasCode(dump, owner) {
+								continue
+							}
 							if _, ok := auth[owner]; !ok {
 								res.Hit("unauthorised-debit", c, fmt.Sprintf("block %d: holdings of %s in %s fell %s -> %s but it signed nothing in the block; txs: %s", b.Height, owner, curName, before, after, txSummary(gts, br)), hl.Lines)
 								stop = true
@@ -566,4 +572,17 @@ func wrappedAllowance(prev, cur map[string]string, txs [][]byte, codes []uint32)
 		}
 	}
 	return out
+}
+
+// hasCode: does the dump hold an account keeper record with contract code for the owner ("0lt<hex>")?
+func hasCode(m map[string]string, owner string) bool {
+	if !strings.HasPrefix(owner, "0lt") {
+		return false
+	}
+	raw, err := hex.DecodeString(owner[3:])
+	if err != nil {
+		return false
+	}
+	v := &stateView{m: m}
+	return v.keeper(raw).Code
 }
